@@ -121,6 +121,9 @@ type internalStruct struct {
 	SliceValues          []*internalStruct `json:",omitempty"`
 	// the value is an array of len(SliceValues) elements, not a slice
 	IsArray bool `json:",omitempty"`
+
+	// map, slice or array of a registered defined type (type T []E): the name of T
+	ContainerType string `json:",omitempty"`
 }
 
 func internalMarshal(v any) (*internalStruct, error) {
@@ -206,6 +209,7 @@ func internalMarshal(v any) (*internalStruct, error) {
 			return nil, fmt.Errorf("unknown type: %v", rvt)
 		}
 		ret.MapValueType = key
+		ret.ContainerType = definedContainerKey(rt)
 
 		ret.MapValues = make(map[string]*internalStruct)
 
@@ -240,6 +244,7 @@ func internalMarshal(v any) (*internalStruct, error) {
 		}
 		ret.SliceValueType = key
 		ret.IsArray = rt.Kind() == reflect.Array
+		ret.ContainerType = definedContainerKey(rt)
 
 		length := rv.Len()
 		ret.SliceValues = make([]*internalStruct, length)
@@ -348,7 +353,11 @@ func internalUnmarshal(v *internalStruct) (any, error) {
 		rvt = resolvePointerNum(v.MapValuePointerNum, rvt)
 
 		// todo: if all values are based, can use unmarshal instead of internalUnmarshal
-		result, dResult := createValueFromType(resolvePointerNum(v.PointerNum, reflect.MapOf(rkt, rvt)))
+		mt, err := containerType(v, reflect.MapOf(rkt, rvt))
+		if err != nil {
+			return nil, err
+		}
+		result, dResult := createValueFromType(resolvePointerNum(v.PointerNum, mt))
 		for marshaledMapKey, internalValue := range v.MapValues {
 			prkv := reflect.New(rkt)
 			err := sonic.UnmarshalString(marshaledMapKey, prkv.Interface())
@@ -377,7 +386,11 @@ func internalUnmarshal(v *internalStruct) (any, error) {
 	rvt = resolvePointerNum(v.SliceValuePointerNum, rvt)
 
 	if v.IsArray {
-		result, dResult := createValueFromType(resolvePointerNum(v.PointerNum, reflect.ArrayOf(len(v.SliceValues), rvt)))
+		at, err := containerType(v, reflect.ArrayOf(len(v.SliceValues), rvt))
+		if err != nil {
+			return nil, err
+		}
+		result, dResult := createValueFromType(resolvePointerNum(v.PointerNum, at))
 		for i, internalValue := range v.SliceValues {
 			value, err := internalUnmarshal(internalValue)
 			if err != nil {
@@ -391,7 +404,11 @@ func internalUnmarshal(v *internalStruct) (any, error) {
 	}
 
 	// todo: if all slice values are based, can use unmarshal instead of internalUnmarshal
-	result, dResult := createValueFromType(resolvePointerNum(v.PointerNum, reflect.SliceOf(rvt)))
+	st, err := containerType(v, reflect.SliceOf(rvt))
+	if err != nil {
+		return nil, err
+	}
+	result, dResult := createValueFromType(resolvePointerNum(v.PointerNum, st))
 	for _, internalValue := range v.SliceValues {
 		value, err := internalUnmarshal(internalValue)
 		if err != nil {
@@ -405,6 +422,31 @@ func internalUnmarshal(v *internalStruct) (any, error) {
 		}
 	}
 	return result.Interface(), nil
+}
+
+// definedContainerKey is the registered name of a defined map / slice / array type; the
+// unnamed type built from the element types is the right one for everything else.
+func definedContainerKey(rt reflect.Type) string {
+	if rt.Name() == "" {
+		return ""
+	}
+	return rm[rt]
+}
+
+// containerType is the type to rebuild a container with: the registered defined type the
+// encoder recorded, or else the unnamed type t built from the element types.
+func containerType(v *internalStruct, t reflect.Type) (reflect.Type, error) {
+	if len(v.ContainerType) == 0 {
+		return t, nil
+	}
+	ct, ok := m[v.ContainerType]
+	if !ok {
+		return nil, fmt.Errorf("unknown type key: %v", v.ContainerType)
+	}
+	if !t.AssignableTo(ct) {
+		return nil, fmt.Errorf("type[%s] is %v, cannot hold %v", v.ContainerType, ct, t)
+	}
+	return ct, nil
 }
 
 func resolvePointerNum(pointerNum uint32, t reflect.Type) reflect.Type {
